@@ -36,7 +36,20 @@ class RecPath(symex._ShadowOsPath):
     def dirname(self, p):
         if isinstance(p, SymPath):
             return SymPath(p.comps[:-1])
+        if isinstance(p, RelPath):
+            return RelPath(self.dirname(p.p), p.start)
         return real_os.path.dirname(p)
+
+    def basename(self, p):
+        if isinstance(p, SymPath):
+            return p.comps[-1]
+        return real_os.path.basename(p)
+
+    def join(self, *parts):
+        # relpath(dir, start) joined with a name is relpath(dir/name, start)
+        if parts and isinstance(parts[0], RelPath):
+            return RelPath(symex._ShadowOsPath.join(self, parts[0].p, *parts[1:]), parts[0].start)
+        return symex._ShadowOsPath.join(self, *parts)
 
     def getsize(self, p):
         self._o.events.append(('getsize', p))
